@@ -52,7 +52,7 @@ def run_tasks(modname, tasks, nprocs=None):
 def replay_native(check_id, spec, idx):
     """run the concrete counterexample against the uninstrumented repository in a fresh process.
     returns (reproduced: bool|None, detail, path)"""
-    d = os.path.join(VERIF, "replays", check_id)
+    d = os.path.join(os.environ.get("VERIF_REPLAY_DIR", os.path.join(VERIF, "replays")), check_id)
     os.makedirs(d, exist_ok=True)
     path = os.path.join(d, "%s.json" % idx)
     with open(path, "w") as f:
@@ -79,7 +79,7 @@ def load_known():
 
 # ------------------------------------------------------------------------------------------------ evidence
 def write_evidence(check_id, tier, seed, coverage, assumptions, wall, violations, level="other"):
-    d = os.path.join(VERIF, "evidence")
+    d = os.environ.get("VERIF_EVIDENCE_DIR", os.path.join(VERIF, "evidence"))
     os.makedirs(d, exist_ok=True)
     ev = {"property_id": check_id, "tier": tier, "seed": int(seed), "level": level, "coverage": coverage,
           "assumptions": assumptions, "wall_s": round(wall, 2), "violations": int(violations)}
